@@ -268,3 +268,40 @@ Lemma uconvertible_m_spec r1 n1 d1 r2 n2 d2 :
   uconvertible_m (Dur r1 n1 d1) (Dur r2 n2 d2)
   = Val (((n1 * d2) mod (d1 * n2) =? 0) && ((n1 * d2) / (d1 * n2) <=? max64)).
 Proof. intros Hp1 Hp2. apply convertible_m_spec; assumption. Qed.
+
+(** * duration * scalar on every pair of representable operands *)
+(* the type in which (count of the common representation) * (scalar) is formed, in the standard's words *)
+Lemma uac_scalar_spec r rs : urep_ok r = true -> urep_ok rs = true ->
+  uac (common_rep r rs) rs = arith_conv_spec (crep_spec r rs) rs
+  /\ (rsigned (uac (common_rep r rs) rs) = false -> uac (common_rep r rs) rs = common_rep r rs).
+Proof. intros H1 H2; rcases H1; rcases H2; split; try reflexivity; intros H; try discriminate H; reflexivity. Qed.
+
+Lemma usmul_total r n d rs c s :
+  urep_ok r = true -> urep_ok rs = true -> period_ok n d = true -> uscalar_ok r rs c s = true ->
+  let rc := crep_spec r rs in
+  let t := arith_conv_spec rc rs in
+  usmul_m (Dur r n d) rs c s
+  = if usigned t && negb (ufits t (c * s)) then Ub SignedOverflow else Val (uwrap rc (c * s)).
+Proof.
+  intros Hr Hrs Hp Hok. cbv zeta.
+  unfold uscalar_ok in Hok. cbv zeta in Hok. rewrite !Bool.andb_true_iff in Hok.
+  rewrite !ufits_crep in Hok by assumption. rewrite !ufits_in_rty in Hok by assumption.
+  destruct Hok as (((Hc & Hs) & Hcc) & Hsc).
+  pose proof (urep_rty _ Hr) as Ht. pose proof (urep_rty _ Hrs) as Hts.
+  destruct (uac_scalar_sup r rs Ht Hts) as [Hsup Hto].
+  destruct (uac_scalar_spec r rs Hr Hrs) as [Et Eu].
+  destruct (common_rep_spec r rs Hr Hrs) as [Ecr Hrc]. rewrite <- Ecr in *. rewrite <- Et.
+  pose proof (common_rep_ok _ _ Ht Hts) as Hrcok.
+  set (rc := common_rep r rs) in *. set (t := uac rc rs) in *.
+  assert (Htu : urep_ok t = true).
+  { unfold t, rc. clear -Hr Hrs. rcases Hr; rcases Hrs; reflexivity. }
+  rewrite (ufits_in_rty t) by assumption. change (usigned t) with (rsigned t).
+  unfold usmul_m. cbv zeta. rewrite uconv_widen by assumption. cbn [bind uscale_ty rw]. fold rc.
+  unfold bin_mul. cbv zeta. fold t.
+  rewrite !cvt_id by (eapply in_rty_sup; eassumption).
+  unfold ar. rewrite <- cvt_uwrap by assumption.
+  destruct (rsigned t) eqn:Es; cbn [andb].
+  - destruct (in_rty t (c * s)); reflexivity.
+  - cbn [bind]. rewrite (Eu eq_refl). f_equal.
+    rewrite (cvt_id rc (cvt rc (c * s))) by (apply cvt_in; assumption). reflexivity.
+Qed.
